@@ -409,4 +409,32 @@ func init() {
 		explanation: "the nine hooks of the secure plugin and the surrounding real AsyncCall/Push/bindCall/handleCall/bindReply/handleReply plumbing are executed on two peers whose frames the harness carries between scripted connections; marker matrix (secure x accept-secure), same/different key, push during redial",
 		bounds:      "bodies <= 3 bytes; one call/push per path; AES and MD5 internals outside the claim",
 	})
+	registerCheck(&checkSpec{
+		id: "C11", dirs: []string{"codec"}, level: "other",
+		jobs: func(tier string) []job {
+			var js []job
+			for k := 0; k <= 9; k++ {
+				n := 1
+				if tier == "thorough" {
+					n = 3
+				}
+				js = append(js, J("codec", "VX_C11_PlainRoundTrip", k, n))
+			}
+			js = append(js, J("codec", "VX_C11_PlainRoundTrip", 0, 0), J("codec", "VX_C11_PlainRoundTrip", 2, 0))
+			for k := 0; k <= 7; k++ {
+				js = append(js, J("codec", "VX_C11_PlainGarbage", k, 2))
+			}
+			js = append(js, J("codec", "VX_C11_PlainGarbage", 5, 0), J("codec", "VX_C11_PlainGarbage", 4, 1),
+				J("codec", "VX_C11_PlainReuse", 3, 1), J("codec", "VX_C11_PlainReuse", 2, 0), J("codec", "VX_C11_PlainReuse", 1, 2),
+				J("codec", "VX_C11_FormRoundTrip", 0, 1, 0), J("codec", "VX_C11_FormRoundTrip", 1, 1, 2), J("codec", "VX_C11_FormRoundTrip", 1, 0, 3), J("codec", "VX_C11_FormRoundTrip", 2, 1, 0), J("codec", "VX_C11_FormRoundTrip", 3, 1, 1),
+				J("codec", "VX_C11_FormGarbage", 1, 1), J("codec", "VX_C11_FormGarbage", 1, 2), J("codec", "VX_C11_FormGarbage", 1, 3), J("codec", "VX_C11_FormGarbage", 0, 2), J("codec", "VX_C11_FormGarbage", 0, 3))
+			if tier == "thorough" {
+				js = append(js, J("codec", "VX_C11_PlainGarbage", 5, 4), J("codec", "VX_C11_PlainGarbage", 0, 4), J("codec", "VX_C11_FormGarbage", 0, 4), J("codec", "VX_C11_FormRoundTrip", 0, 2, 0))
+			}
+			return js
+		},
+		assumptions: append(append([]string{}, stdAssumptions...), "reflect is the engine's model (types from go/types; addressable values; the subset used by the plain and form codecs)", "json, xml, protobuf and thrift codecs are three-line delegations to reflection/table-driven library encoders and are outside the claim; floats excluded"),
+		explanation: "the real PlainCodec and FormCodec (formatProperType/parseProperType, setStructToForm/mapFormToStruct/setWithProperType, url.Values.Encode/url.ParseQuery interpreted) are executed on symbolic values and on arbitrary symbolic input bytes; round trip incl. element order, no panic leaving the codec, and independence of the decoded value from the input buffer are SMT-checked assertions",
+		bounds:      "plain: string/named string/[]byte/named bytes (<= 1-3 bytes), bool, int8/32/64, uint8/64; form: struct with string/int8/bool/[]string(<=3)/[2]string/nested struct, one symbolic field group per instance; arbitrary input <= 3 (quick) / 4 bytes",
+	})
 }
